@@ -276,7 +276,7 @@ def scan_function(prog: Prog, fn: Fn) -> Iterator[Site]:
                     if rt.is_optional():
                         opt_src = f"{nm}()"
             elif isinstance(v, ast.Name):
-                defs = prog.local_defs(fn, v.id)
+                defs = fl.reaching_defs(n, v.id)
                 for kind, node in defs:
                     val = getattr(node, "value", None)
                     if kind in ("assign", "walrus") and isinstance(val, ast.Call):
